@@ -255,7 +255,7 @@ Definition okown (m : mstate) (o : owner) : Prop :=
   | OUser | OGiven _ => True
   | OProc _ => m_ginit m = true
   | OLoop l s => m_loop m = Some l \/ (s = SBackend /\ In l (m_leaked m))
-  | OHandle h s => is_open m h = true
+  | OHandle h s => hok m h s = true
   | OTemp _ => False
   end.
 
@@ -268,34 +268,66 @@ Definition Qop (m : mstate) (o : op) (r : mstate * nat) (W : owner -> Prop) : Pr
   (o = OLoopClose -> snd r = RC_OK -> m_loop (fst r) = None) /\
   m_fixed (fst r) = m_fixed m.
 
-Lemma is_open_add m t st h :
-  is_open m h = true -> is_open (add_handle m t st) h = true.
+Lemma hok_add m t st h s :
+  hok m h s = true -> hok (add_handle m t st) h s = true.
 Proof.
-  unfold is_open, hstate_of, add_handle; cbn.
+  unfold hok, is_open, ty_of, hstate_of, add_handle; cbn.
   destruct (nth_error (m_handles m) h) eqn:E; [|discriminate].
   rewrite nth_error_app1; [rewrite E; auto|].
   apply nth_error_Some; congruence.
 Qed.
 
-Lemma is_open_add_new m t :
-  is_open (add_handle m t HOpen) (length (m_handles m)) = true.
+Lemma hok_add_new m t s :
+  hok (add_handle m t HOpen) (length (m_handles m)) s = slot_ok t s.
 Proof.
-  unfold is_open, hstate_of, add_handle; cbn.
+  unfold hok, is_open, ty_of, hstate_of, add_handle; cbn.
   rewrite nth_error_app2 by lia. rewrite Nat.sub_diag. reflexivity.
 Qed.
 
-Lemma is_open_sethst_other m h st h' :
-  h' <> h -> is_open (set_hst m h st) h' = is_open m h'.
+Lemma is_open_add_none m t st :
+  (forall h, is_open m h = false) -> st <> HOpen -> forall h, is_open (add_handle m t st) h = false.
 Proof.
-  intros Hne. unfold is_open, hstate_of, set_hst; cbn.
+  intros H Hst h. specialize (H h). unfold is_open, hstate_of, add_handle in *; cbn.
+  destruct (Nat.lt_ge_cases h (length (m_handles m))).
+  - rewrite nth_error_app1 by auto. exact H.
+  - rewrite nth_error_app2 by auto. destruct (h - length (m_handles m)) as [|k]; cbn.
+    + destruct st; auto; congruence.
+    + destruct k; reflexivity.
+Qed.
+
+Lemma hok_sethst_other m h st h' s :
+  h' <> h -> hok (set_hst m h st) h' s = hok m h' s.
+Proof.
+  intros Hne. unfold hok, is_open, ty_of, hstate_of, set_hst; cbn.
   rewrite nth_error_upd_other by congruence. reflexivity.
 Qed.
 
-Lemma is_open_run m h :
-  is_open (set_handles m (map (fun r => match h_st r with HClosing => mkH (h_ty r) HClosed | _ => r end)
-                              (m_handles m))) h = is_open m h.
+Lemma is_open_sethst m h st h' :
+  st <> HOpen -> is_open m h' = false -> is_open (set_hst m h st) h' = false.
 Proof.
-  unfold is_open, hstate_of; cbn. rewrite nth_error_map.
+  intros Hst. unfold is_open, hstate_of, set_hst; cbn.
+  destruct (Nat.eq_dec h h') as [->|Hne].
+  - destruct (nth_error (m_handles m) h') as [r|] eqn:E.
+    + rewrite (nth_error_upd_same _ _ _ _ E). destruct st; auto; congruence.
+    + intros _. assert (nth_error (upd h' (fun r => mkH (h_ty r) st) (m_handles m)) h' = None).
+      { apply nth_error_None. rewrite upd_length. apply nth_error_None; auto. }
+      rewrite H; reflexivity.
+  - rewrite nth_error_upd_other by congruence. auto.
+Qed.
+
+Definition run_closing (m : mstate) : mstate :=
+  set_handles m (map (fun r => match h_st r with HClosing => mkH (h_ty r) HClosed | _ => r end)
+                     (m_handles m)).
+
+Lemma hok_run m h s : hok (run_closing m) h s = hok m h s.
+Proof.
+  unfold hok, is_open, ty_of, hstate_of, run_closing; cbn. rewrite nth_error_map.
+  destruct (nth_error (m_handles m) h) as [[t st]|]; cbn; auto. destruct st; auto.
+Qed.
+
+Lemma is_open_run m h : is_open (run_closing m) h = is_open m h.
+Proof.
+  unfold is_open, hstate_of, run_closing; cbn. rewrite nth_error_map.
   destruct (nth_error (m_handles m) h) as [[t st]|]; cbn; auto. destruct st; auto.
 Qed.
 
@@ -319,7 +351,7 @@ Lemma okown_ext m m' o :
   (m_ginit m = true -> m_ginit m' = true) ->
   m_loop m' = m_loop m ->
   incl (m_leaked m) (m_leaked m') ->
-  (forall h, is_open m h = true -> is_open m' h = true) ->
+  (forall h s, hok m h s = true -> hok m' h s = true) ->
   okown m o -> okown m' o.
 Proof.
   intros Hg Hl Hk Hh. destruct o; cbn; auto.
